@@ -154,6 +154,12 @@ def run_random(cfg, seed, steps, weights=None, maxcmd=12, extra=None):
                 if item[0] == 'quiet':
                     quiet_phase(cl, rng, trace, state, rounds=item[1], ncmds=item[2] if len(item) > 2 else 3)
                     continue
+                if item[0] == 'boot':
+                    boot_phase(cl, rng, trace, state)
+                    continue
+                if item[0] == 'reelect':
+                    reelect_phase(cl, rng, trace, state, variant=item[1] if len(item) > 1 else None)
+                    continue
                 for act in _script(cl, [item], rng):
                     if cl.applicable(act):
                         trace.append(cl.step(act))
@@ -212,6 +218,164 @@ def quiet_phase(cl, rng, trace, state, rounds=30, ncmds=3):
             turn += 1
             deliver_all()
     trace.append(cl.step(('Assert', 'converged')))
+
+
+def boot_phase(cl, rng, trace, state):
+    """connect everything and let one node win the first election (saves the random walk the time to get there)"""
+    N = cl.nodes
+
+    def do(act):
+        if cl.applicable(act):
+            trace.append(cl.step(act))
+    ids = sorted(n for n in N if N[n].alive)
+    for i in ids:
+        for j in ids:
+            if i != j:
+                do(('Connect', i, j))
+
+    def deliver_all():
+        for _ in range(50):
+            chans = sorted((i, j) for (i, j), q in cl.net.chan.items() if q and j in N and N[j].alive)
+            if not chans:
+                return
+            for (i, j) in chans:
+                do(('Deliver', i, j))
+    deliver_all()
+    voters = [n for n in ids if N[n].voter]
+    first = rng.choice(voters)
+    for attempt in range(3):
+        do(('Tick', first, 'j'))
+        deliver_all()
+        if N[first].obj._isLeader():
+            break
+    for r in range(2):
+        for n in ids:
+            do(('Tick', n, 'h'))
+        deliver_all()
+
+
+def reelect_phase(cl, rng, trace, state, variant=None):
+    """directed schedule towards the states in which the commit rules matter (Raft's 'figure 8' family):
+    the leader L and a minority around it are cut off and keep appending (acknowledged inside the minority, never
+    committed); the majority side elects B; either B is cut off before it replicates anything ('bare') or it
+    replicates and overwrites the minority's entries after the partition heals ('overwrite'); then L is elected
+    again.  Every step is an ordinary action of the scheduler (recorded, validated); what follows is random."""
+    N = cl.nodes
+
+    def do(act):
+        if cl.applicable(act):
+            trace.append(cl.step(act))
+            return True
+        return False
+
+    def leader_of(ids):
+        ls = [(N[n].obj.raftCurrentTerm, n) for n in ids if N[n].alive and N[n].obj._isLeader()]
+        return max(ls)[1] if ls else None
+
+    def cut(a, b):
+        do(('Break', a, b)); do(('Notice', a, b)); do(('Notice', b, a))
+
+    def join(a, b):
+        do(('Notice', a, b)); do(('Notice', b, a)); do(('Connect', a, b)); do(('Connect', b, a))
+
+    def deliver_within(group, rounds=6, skip_from=()):
+        for _ in range(rounds):
+            chans = sorted((i, j) for (i, j), q in cl.net.chan.items() if q and i in group and j in group and N[j].alive and i not in skip_from)
+            if not chans:
+                return
+            for (i, j) in chans:
+                do(('Deliver', i, j))
+
+    voters = sorted(n for n in N if N[n].alive and N[n].voter)
+    L = leader_of(voters)
+    if L is None or len(voters) < 3:
+        return
+    variant = variant or rng.choice(['bare', 'overwrite'])
+    others = [v for v in voters if v != L]
+    rng.shuffle(others)
+    nmin = rng.randint(0, (len(voters) - 1) // 2 - 1) if len(voters) > 3 else 0
+    minority = [L] + others[:nmin]
+    majority = others[nmin:]
+    for a in minority:
+        for b in majority:
+            cut(a, b)
+    # the cut-off leader keeps accepting commands; its minority acknowledges them
+    for k in range(rng.randint(1, 3)):
+        state['ncmd'] += 1
+        do(('Submit', L, 'c%d' % state['ncmd'], {'kind': 'op'}))
+        do(('Tick', L, 'z'))
+        deliver_within(set(minority), rounds=3)
+    for m in minority:
+        do(('Tick', m, 'h'))
+    deliver_within(set(minority), rounds=4)
+    # the other side elects B
+    B = majority[0]
+    for attempt in range(4):
+        do(('Tick', B, 'j'))
+        if variant == 'bare':
+            # votes travel, B's own appends do not leave it (yet)
+            for _ in range(4):
+                for m in majority[1:]:
+                    if cl.net.chan.get((B, m)) and not N[B].obj._isLeader():
+                        do(('Deliver', B, m))
+                    if cl.net.chan.get((m, B)):
+                        do(('Deliver', m, B))
+        else:
+            deliver_within(set(majority), rounds=6)
+        if N[B].obj._isLeader():
+            break
+    if not N[B].obj._isLeader():
+        return
+    if variant == 'bare':
+        for m in voters:
+            if m != B:
+                cut(B, m)
+        rest = [v for v in voters if v != B]
+    else:
+        for r in range(3):
+            do(('Tick', B, 'h'))
+            deliver_within(set(majority), rounds=4)
+        rest = list(voters)
+    for a in rest:
+        for b in rest:
+            if a < b:
+                join(a, b)
+    if variant == 'overwrite':
+        for r in range(4):
+            do(('Tick', B, 'h'))
+            deliver_within(set(rest), rounds=4)
+        for m in voters:
+            if m != B:
+                cut(B, m)
+        rest = [v for v in voters if v != B]
+    else:
+        deliver_within(set(rest), rounds=2)
+    # L stands again
+    for attempt in range(5):
+        do(('Tick', L, 'j'))
+        for _ in range(4):
+            for m in rest:
+                if m != L:
+                    if cl.net.chan.get((L, m)) and not N[L].obj._isLeader():
+                        do(('Deliver', L, m))
+                    if cl.net.chan.get((m, L)) and not N[L].obj._isLeader():
+                        do(('Deliver', m, L))
+        if N[L].obj._isLeader():
+            break
+    if not N[L].obj._isLeader():
+        return
+    # acknowledgements reach the new leader one follower at a time, with a commit scan after each
+    fol = [m for m in rest if m != L]
+    rng.shuffle(fol)
+    for m in fol:
+        for _ in range(3):
+            if cl.net.chan.get((L, m)):
+                do(('Deliver', L, m))
+            if cl.net.chan.get((m, L)):
+                do(('Deliver', m, L))
+            do(('Tick', L, 'z'))
+        if rng.random() < 0.3:
+            do(('Tick', L, 'h'))
 
 
 def _script(cl, script, rng):
